@@ -627,6 +627,20 @@ pub fn run(ctx: &mut Ctx) {
         let cfg = Cfg { sin: st.0, sout: st.1, serr: st.2, detached: rng.chance(300), cwd: rng.chance(300), setuid: false, setgid: false, setpgid: i % 2 == 0, exe_override: rng.chance(200), path_search: rng.chance(300), env: rng.chance(300), free_std: 0 };
         let dir = ctx.scratch_keep("c07d");
         // where somebody is held up (microseconds)
+        // (every third case: a signal handler of the caller interrupts the parent while it waits to learn the outcome)
+        if i % 3 == 2 {
+            let every = rng.chance(300);
+            let rule = Rule { kind: k::READ, scope: plan::SCOPE_PARENT, nth: if every { 0 } else { 1 }, fd: -1, act: plan::ACT_FAIL, val: libc::EINTR as i64, prob: if every { 500 } else { 1000 } };
+            // (nth = 0 with p = 1/2: interrupted again and again; a launch that retries gets through eventually)
+            let l = launch(ctx, &cfg, &dir, &[rule], None, None);
+            ctx.count("launches_interrupted_while_waiting_for_the_outcome", 1);
+            ctx.distinct(&format!("sched|{}|interrupted-status-read", cfg.name()));
+            // the interruption is no failure of the launch: the program runs, so either a handle comes back or - if the
+            // library chooses to report the interruption - no program may be left running behind the error
+            judge(ctx, &cfg, &l, "schedule/parent-interrupted-while-waiting-for-the-outcome", None);
+            let _ = std::fs::remove_dir_all(&dir);
+            return;
+        }
         let points: [(u16, u8, u8); 7] = [
             (k::FORK, plan::SCOPE_PARENT, plan::ACT_DELAY_AFTER), // the child runs ahead of the parent: it may be the program already
             (k::FORK, plan::SCOPE_PARENT, plan::ACT_DELAY_BEFORE),
